@@ -366,7 +366,7 @@ impl Exec {
                 }
                 let (bi, _) = self.buf(i)?;
                 let (bj, _) = self.buf(j)?;
-                if boff + blen > 8 * bi.len() || blen > 8 * bj.len() {
+                if bi.is_empty() || boff + blen > 8 * bi.len() || blen > 8 * bj.len() {
                     return None;
                 }
                 // a reference to the right operand's buffer is enough for `BooleanBuffer::new`
@@ -650,7 +650,7 @@ fn gen_hist(rng: &mut Rng) -> String {
             if bufs.len() >= 2 {
                 let i = *rng.pick(&bufs);
                 let j = *rng.pick(&bufs);
-                if i == j {
+                if i == j || ex.buf(i).unwrap().0.is_empty() {
                     continue;
                 }
                 let (li, lj) = (ex.buf(i).unwrap().0.len(), ex.buf(j).unwrap().0.len());
@@ -674,7 +674,7 @@ fn main() {
         quiet_panics();
     }
     let mut sink = Sink::new(&args.out);
-    let mut emit = |sink: &mut Sink, line: String, extra: &str| {
+    let emit = |sink: &mut Sink, line: String, extra: &str| {
         let (a, tags, oracle) = run_case(&line);
         let tags = format!("{} {}", tags, extra);
         for o in oracle {
